@@ -18,6 +18,7 @@ struct ThrSim {
 	int current = -1;                // worker id that holds the baton (-1: main)
 	Rng sched{1};
 	unsigned switch_num = 1, switch_den = 3;   // probability of handing over at a yield point
+	uint64_t max_switches = 200000;
 	uint64_t yield_points = 0, switches = 0, accesses = 0, shared_accesses = 0, func_entries = 0;
 	uint64_t schedule_hash = 1469598103934665603ULL;
 	std::vector<RaceReport> races;
